@@ -92,3 +92,5 @@ package resourcepack
 //@   at-call Remove as rm: assert [final-status-removes-outstanding] !res(peek) && held(m.rwMutex) == wlocked && arg1 == old(bundle.ID)
 //@   at-call tickResourcePackQueueLocked as tick: assert [next-prompt-after-final-status] !res(peek) && arg0 == m && arg1 == old(bundle.ID) && held(m.rwMutex) == wlocked
 //@   at-call mapupdate: assert [tracked-per-id] arg1 == old(bundle.ID) && arg2 == queued && queued != nil && held(m.rwMutex) == wlocked
+//@   at-call maplookup:appliedPacks as ap: assert [repeated-success-is-matched-against-the-applied-packs] arg1 == old(bundle.ID) && held(m.rwMutex) == wlocked
+//@   at-call HandleResponseResult#1 as hr1: assert [an-already-applied-proxy-pack-is-answered-for-that-pack] called(ap) && arg0 == m && arg2 == bundle
